@@ -1,12 +1,16 @@
 """C24 — hierarchical routes are composed correctly.
-Generated nested platforms (2 and 3 levels below the root; Full/Floyd/Dijkstra/DijkstraCache/Star/Torus zones) are built
+Generated nested platforms (2 and 3 levels below the root, in the second batch also 4; Full/Floyd/Dijkstra/DijkstraCache/Star/Torus zones) are built
 by harness/routing_drv through the C++ platform API.  One process dumps: the zone tree (parents, netpoints, default
 gateways), EVERY zone's own get_local_route for all ordered pairs of its vertices, every link's latency, and
 Host::route_to for all ordered host pairs.
 K/O: the extracted Coq function global_route (proved equal to the declarative composition up ++ across ++ down,
    C24_composition) is instantiated with the zones' own local routes and must give exactly the link sequence and latency of
    route_to — which of several equivalent local routes a zone picks is taken from the zone itself, so only the composition is
-   judged.  O also checks latency = sum of link latencies and symmetric declared routes reversed (Full and Star zones)."""
+   judged.  O also checks latency = sum of link latencies and symmetric declared routes reversed (Full and Star zones).
+Bypass routes: about two platforms in three also declare zone-level bypass routes (between zones at any depth of two
+   different branches below a zone, gateways anywhere inside them) and host-level ones (two netpoints of one zone); the
+   driver dumps every zone's bypass_routes_ table and the extracted groute (get_bypass_route + the recursion through the
+   bypass gateways, C24_bypass_composition / C24_bypass_winner) must reproduce route_to."""
 import json
 import fw
 from routing_lib import run_platforms, run_model_par
@@ -18,6 +22,50 @@ TOP_KINDS = ["full", "floyd", "dijkstra", "star"]
 class Gen:
     def __init__(self, rng):
         self.rng, self.lines, self.k, self.hosts, self.sym = rng, [], 0, 0, []
+        self.nest = False     # a fourth level (only in the second batch of platforms, so that the first keeps its stream)
+        self.tree = {}        # zone -> dict(parent, kind, nps=[hosts and routers directly inside], children=[zones])
+
+    def node(self, name, parent, kind, nps):
+        self.tree[name] = {"parent": parent, "kind": kind, "nps": list(nps), "children": []}
+        if parent in self.tree:
+            self.tree[parent]["children"].append(name)
+
+    def subtree(self, z):
+        """zones of the subtree rooted at z (z first)"""
+        out = [z]
+        for c in self.tree[z]["children"]:
+            out += self.subtree(c)
+        return out
+
+    def bypasses(self):
+        """zone-level bypass routes in zones with at least two branches, host-level ones between netpoints of one zone"""
+        rng, L, done = self.rng, self.lines, set()
+        hubs = [z for z, t in self.tree.items() if len(t["children"]) >= 2]
+        for _ in range(rng.randint(1, 4) if hubs else 0):
+            c = rng.choice(hubs)
+            b1, b2 = rng.sample(self.tree[c]["children"], 2)
+            if rng.random() < 0.15:
+                b2 = b1                                   # both keys in one branch: never looked up
+            # prefer keys at unequal depths: the branch itself on one side, something deeper on the other
+            x = rng.choice(self.subtree(b1)) if rng.random() < 0.5 else b1
+            y = rng.choice(self.subtree(b2)) if rng.random() < 0.5 else b2
+            if x == y or (c, x, y) in done:
+                continue
+            done.add((c, x, y))
+            gs = rng.choice([n for z in self.subtree(x) for n in self.tree[z]["nps"]])
+            gd = rng.choice([n for z in self.subtree(y) for n in self.tree[z]["nps"]])
+            L.append("bypass %s %s %s %s %s %s" % (c, x, y, gs, gd, " ".join(self.links(c))))
+        for _ in range(rng.randint(0, 2)):
+            z = rng.choice(sorted(self.tree))
+            nps = self.tree[z]["nps"]
+            if len(nps) < 2:
+                continue
+            a, b = rng.sample(nps, 2)
+            if (z, a, b) in done:
+                continue
+            done.add((z, a, b))
+            lz = self.tree[z]["parent"] if self.tree[z]["kind"] == "torus" else z      # a torus zone is sealed at creation
+            L.append("bypass %s %s %s - - %s" % (z, a, b, " ".join(self.links(lz))))
 
     def links(self, zone, n=None, split_ok=True):
         """declare n fresh links in zone; returns route tokens"""
@@ -43,10 +91,12 @@ class Gen:
             for d in dims:
                 n *= d
             self.hosts += n
+            self.node(name, parent, "torus", ["%s_h%d" % (name, i) for i in range(n)] + [gw])
             return gw
         L.append("zone %s %s %s" % (name, parent, kind))
         hs = ["%s_h%d" % (name, i) for i in range(nh)]
         self.hosts += nh
+        self.node(name, parent, kind, hs + [gw])
         for h in hs:
             L.append("host %s %s" % (h, name))
         L.append("router %s %s" % (gw, name))
@@ -74,20 +124,26 @@ class Gen:
                             L.append("route %s %s %s - - 0 %s" % (name, hs[j], hs[i], " ".join(self.links(name))))
         return gw
 
-    def middle(self, name, parent, nchild):
-        """a Star zone containing leaf zones and its own gateway router (the only kind that accepts zone<->router routes)"""
+    def middle(self, name, parent, nchild, level=0):
+        """a Star zone containing leaf zones (with self.nest also one more level of Star zones) and its own gateway router
+        (the only kind that accepts zone<->router routes)"""
         L = self.lines
         L.append("zone %s %s star" % (name, parent))
         gw = name + "_gw"
+        self.node(name, parent, "star", [gw])
         for c in range(nchild):
             cn = "%s%d" % (name, c)
-            cgw = self.leaf(cn, name, self.rng.choice(LEAF_KINDS), self.rng.randint(1, 3))
+            if self.nest and level == 0 and self.rng.random() < 0.3:
+                cgw = self.middle(cn, name, self.rng.randint(1, 2), 1)
+            else:
+                cgw = self.leaf(cn, name, self.rng.choice(LEAF_KINDS), self.rng.randint(1, 3))
             toks = self.links(name)
             L.append("route %s %s - %s - 1 %s" % (name, cn, cgw, " ".join(toks)))
         if self.rng.random() < 0.5:
             h = name + "_h"
             L.append("host %s %s" % (h, name))
             self.hosts += 1
+            self.tree[name]["nps"].append(h)
             L.append("route %s %s - - - 1 %s" % (name, h, " ".join(self.links(name))))
         L.append("router %s %s" % (gw, name))
         L.append("gateway %s %s" % (name, gw))
@@ -113,10 +169,15 @@ class Gen:
                 L.append("route T %s %s %s %s 0 %s" % (c2, c1, g2, g1, " ".join(self.links("T"))))
 
 
-def gen_platform(rng, depth3):
+DUMPS = ["sealall", "dumptree", "dumplinks", "dumplocal", "dumpbypass", "dump"]
+
+
+def gen_platform(rng, depth3, bypass=False):
     g = Gen(rng)
+    g.nest = bypass
     kind = rng.choice(TOP_KINDS)
     g.lines.append("zone T - %s" % kind)
+    g.node("T", "-", kind, [])
     children = []
     for c in range(rng.randint(2, 4)):
         name = "Z%d" % c
@@ -129,7 +190,9 @@ def gen_platform(rng, depth3):
     if len(children) < 2:
         children.append(("Zx", g.leaf("Zx", "T", "full", 1)))
     g.top(kind, children)
-    return g.lines + ["sealall", "dumptree", "dumplinks", "dumplocal", "dump"], g.sym
+    if bypass:
+        g.bypasses()
+    return g.lines + DUMPS, g.sym
 
 
 CORPUS = [
@@ -139,6 +202,20 @@ CORPUS = [
       "link m1 M 10", "link m2 M 20", "route M A - ga - 1 m1 m2", "gateway M gm", "host b1 B", "router gb B", "link lb B 3",
       "route B b1 gb - - 1 lb", "gateway B gb", "link r1 T 100", "link r2 T 200", "route T M B gm gb 1 r1 r2",
       "sealall", "dumptree", "dumplinks", "dumplocal", "dump"], [("A", "a2", "ga", ["la2", "la"])]),
+    # bypass routes with endpoints at unequal depths: hA1 sits two zones below T, hB/hB2 one.  Keys A->B and B->A are index
+    # pairs (1,0)/(0,1) of the search; A1->C1 (0,0) wins over A->C1 (1,0) and A->C (1,1); B is a Dijkstra zone (its local
+    # route is built backwards: must still come AFTER the bypass links); a host-level bypass inside B
+    (["zone T - full",
+      "zone A T star", "zone A1 A full", "host hA1 A1", "router rA1 A1", "link lA1 A1 1", "route A1 hA1 rA1 - - 1 lA1", "gateway A1 rA1",
+      "router rA A", "link lAA A 2", "route A A1 - rA1 - 1 lAA", "gateway A rA",
+      "zone B T dijkstra", "host hB B", "host hB2 B", "router rB B", "link lB B 3", "link lB2 B 4", "route B hB rB - - 1 lB",
+      "route B hB2 hB - - 1 lB2", "gateway B rB",
+      "zone C T star", "zone C1 C floyd", "host hC1 C1", "router rC1 C1", "link lC1 C1 5", "route C1 hC1 rC1 - - 1 lC1", "gateway C1 rC1",
+      "router rC C", "link lCC C 6", "route C C1 - rC1 - 1 lCC", "gateway C rC",
+      "link lAB T 10", "link lAC T 11", "link lBC T 12", "route T A B rA rB 1 lAB", "route T A C rA rC 1 lAC", "route T B C rB rC 1 lBC",
+      "link fAB T 20", "link fBA T 21", "link fA1C1 T 22", "link fAC1 T 23", "link fAC T 24", "link fCB T 25", "link fh B 26",
+      "bypass T A B rA rB fAB", "bypass T B A rB rA1 fBA", "bypass T A1 C1 rA1 hC1 fA1C1", "bypass T A C1 rA rC1 fAC1",
+      "bypass T A C rA rC fAC", "bypass T C B rC hB2 fCB", "bypass B hB hB2 - - fh"] + DUMPS, []),
 ]
 
 
@@ -162,13 +239,17 @@ def run(ctx):
         plats = list(CORPUS)
         for i in range(ctx.n(60, 800)):
             plats.append(gen_platform(ctx.rng, i % 3 != 0))
+        for i in range(ctx.n(50, 700)):
+            plats.append(gen_platform(ctx.rng, i % 4 != 0, bypass=True))
     outs = run_platforms(drv, [p[0] for p in plats])
     dist = {"platforms": 0, "pairs": 0, "cross_zone_pairs": 0, "three_level_pairs": 0, "zones": 0, "max_hosts": 0,
-            "sym_routes_checked": 0, "local_routes": 0}
+            "sym_routes_checked": 0, "local_routes": 0, "platforms_with_bypass": 0, "bypass_routes": 0,
+            "bypass_routes_host_level": 0, "pairs_using_bypass": 0, "pairs_using_bypass_unequal_depth": 0,
+            "pairs_using_two_bypasses": 0}
     mcases, minfo = [], []
     for (lines, sym), (rc, out, err) in zip(plats, outs):
         case = {"lines": lines, "sym": [list(x) for x in sym]}
-        zones, nps, local, lat, routes, bad = [], [], [], {}, {}, []
+        zones, nps, local, lat, routes, bad, byp = [], [], [], {}, {}, [], []
         for l in out:
             t = l.split()
             if not t:
@@ -185,6 +266,8 @@ def run(ctx):
                 local.append((t[1], t[2], t[3], float(t[4]), t[5], t[6], t[7:]))
             elif t[0] == "LX":
                 pass
+            elif t[0] == "P" and len(t) >= 8:
+                byp.append((t[1], t[2], t[3], float(t[4]), t[5], t[6], t[7:]))
             elif t[0] == "R" and len(t) < 4:
                 bad.append(l)
             elif t[0] == "R":
@@ -205,9 +288,11 @@ def run(ctx):
         nid = {n[0]: i for i, n in enumerate(nps)}
         names = sorted(lat)
         lid = {x: i for i, x in enumerate(names)}
+        # zones whose get_local_route inserts in front of the list it is given (only used by the model of the pinned code)
+        zkind = {t[1]: t[3] for t in (l.split() for l in lines) if t and t[0] == "zone" and len(t) > 3}
         enc = [0, len(zones)]
         for z in zones:
-            enc += [zid.get(z[1], -1), nid.get(z[2], -1), nid.get(z[3], -1)]
+            enc += [zid.get(z[1], -1), nid.get(z[2], -1), nid.get(z[3], -1), 1 if zkind.get(z[0], "").startswith("dijkstra") else 0]
         enc += [len(nps)]
         for n in nps:
             enc += [zid[n[1]], 1 if n[2] == "zone" else 0]
@@ -230,12 +315,31 @@ def run(ctx):
             ctx.fail("local-dump", "a local route has a non-integer latency or an unknown link", case)
             continue
         enc += ents
+        # the bypass tables, as dumped from the zones: same entry layout
+        bents, okb = [], True
+        for (z, a, b, la, gs, gd, ls) in byp:
+            if la != int(la) or any(x not in lid for x in ls) or a not in nid or b not in nid or z not in zid:
+                okb = False
+                continue
+            bents += [zid[z], nid[a], nid[b], int(la), nid.get(gs, -1), nid.get(gd, -1), len(ls)] + [lid[x] for x in ls]
+        if not okb:
+            ctx.fail("bypass-dump", "a bypass route has a non-integer latency or an unknown link/netpoint", case)
+            continue
+        enc += [len(byp)] + bents
+        declared = sum(1 for l in lines if l.startswith("bypass "))
+        if declared != len(byp):
+            ctx.fail("bypass-table", "%d bypass routes declared, the zones' tables hold %d: %s" % (declared, len(byp), byp[:3]), case)
+            continue
+        dist["platforms_with_bypass"] += bool(byp)
+        dist["bypass_routes"] += len(byp)
+        dist["bypass_routes_host_level"] += sum(1 for x in byp if x[5] == "-")
         pairs = [(a, b) for a in hosts for b in hosts]
         enc += [len(pairs)]
         for a, b in pairs:
             enc += [nid[a], nid[b]]
         mcases.append(enc)
-        minfo.append((case, pairs, routes, names, lat, {n[0]: n[1] for n in nps}, {z[0]: z[1] for z in zones}))
+        minfo.append((case, pairs, routes, names, lat, {n[0]: n[1] for n in nps}, {z[0]: z[1] for z in zones},
+                      [set(x[6]) for x in byp]))
         dist["platforms"] += 1
         dist["zones"] += len(zones)
         dist["max_hosts"] = max(dist["max_hosts"], len(hosts))
@@ -250,9 +354,15 @@ def run(ctx):
             if loc.get((z, a, b)) != fwd or loc.get((z, b, a)) != bwd:
                 ctx.fail("symmetric-not-reversed", "zone %s: route %s->%s declared symmetrical with links %s; forward is %s, backward is %s (expected %s)" % (
                     z, a, b, fwd, loc.get((z, a, b)), loc.get((z, b, a)), bwd), dict(case, zone=z, src=a, dst=b))
-    model = run_model_par("c24", "run_global", mcases, chunk=4)
-    for (case, pairs, routes, names, lat, np_zone, zparent), m in zip(minfo, model):
+    model = run_model_par("c24", "run_global_bp", mcases, chunk=4)
+    for (case, pairs, routes, names, lat, np_zone, zparent, bplinks), m in zip(minfo, model):
         i = 0
+
+        def zdepth(z):
+            d = 0
+            while z in zparent:
+                z, d = zparent[z], d + 1
+            return d
         for a, b in pairs:
             if m[i] == 1:
                 la, k = m[i + 1], m[i + 2]
@@ -267,6 +377,10 @@ def run(ctx):
             dist["pairs"] += 1
             dist["cross_zone_pairs"] += cross
             dist["three_level_pairs"] += bool(deep)
+            used = sum(1 for bl in bplinks if r[0] == "R" and bl & set(r[2])) if bplinks else 0
+            dist["pairs_using_bypass"] += used > 0
+            dist["pairs_using_two_bypasses"] += used > 1
+            dist["pairs_using_bypass_unequal_depth"] += used > 0 and zdepth(np_zone[a]) != zdepth(np_zone[b])
             ctx.case((tuple(case["lines"]), a, b), cross, {"src": a, "dst": b, "impl": r[2] if r[0] == "R" else r[1][:80],
                                                             "composition": exp[2] if exp[0] == "R" else None} if deep and r[0] == "R" and len(r[2]) > 5 else None)
             c2 = dict(case, src=a, dst=b, impl=list(r), composition=list(exp))
@@ -285,7 +399,9 @@ def run(ctx):
                 sig = "limiter-latency-not-counted" if lims and abs(r[1] + lims - s) < 1e-9 else "latency-sum"
                 ctx.fail(sig, "route %s->%s: latency %s but its links have latencies summing to %s" % (a, b, r[1], s), c2)
     ctx.cov["input_distribution"] = dist
-    ctx.assumptions += ["no bypass routes, no Vivaldi zones in the generated platforms (not modelled)",
+    ctx.assumptions += ["no Vivaldi zones in the generated platforms (not modelled)",
+                        "bypass routes: the gateways of a zone-level bypass X->Y are netpoints inside X resp. Y (so the recursion through "
+                        "get_bypass_route descends); keys are zone netpoints or, host-level, two netpoints of the declaring zone",
                         "gateways of a zone are netpoints directly inside that zone; zones that contain sub-zones and are not the top zone are "
                         "Star zones (routed zones refuse zone<->router routes, which get_interzone_route needs)",
                         "link latencies are small integers, so binary64 sums are exact"]
@@ -298,13 +414,30 @@ META = {
             "ancestor ++ down(dst), with up/down the local routes of the zones crossed through the gateways in travel order "
             "(C24_composition, C24_interzone_up/_down); its latency is the sum of its links' latencies when each zone's local route has "
             "that property (C24_latency_sum); a symmetrical declaration stores the reversed list for the way back "
-            "(C24_symmetric_reversed). The pinned code is refuted (C24_pinned_refuted, rbegin()/rend() on the way up), reproduced on "
-            "the real code and repaired. Tie: on generated 2- and 3-level platforms the extracted function, instantiated with each real "
-            "zone's own get_local_route answers, must reproduce Host::route_to (links and latency) for all host pairs.",
-    "note": "Not modelled: bypass routes, the Vivaldi coordinate term, Wifi/Empty zones, FatTree/Dragonfly leaves. The latency "
-            "hypothesis is checked on every local route dumped; cluster zones push limiter links without adding their latency "
-            "(finding limiter-latency-not-counted). Trusted: Coq kernel, extraction, routing_drv (uses private access to call "
-            "get_local_route), the Python generator/encoder.",
-    "technique": "Coq proof over abstract local routes + extracted-model correspondence instantiated with the zones' own answers",
+            "(C24_symmetric_reversed). Bypass routes (Routing/Bypass.v mirrors get_bypass_route: host-level key when both endpoints sit "
+            "in the common ancestor, else the two chains of zones below it, the (i,j) search up to the LONGER chain, the recursion "
+            "through the bypass gateways): for every bypass table the search returns the declared pair of least rank - smallest "
+            "max(i,j), then (0,m) (m,0) (1,m) (m,1) .. (m,m) - and never misses a declared pair whatever the two depths "
+            "(C24_bypass_winner, C24_bypass_never_missed); the route is sound and complete for the fuel-free declarative route_spec = "
+            "C24_composition when no bypass applies, else route(src -> bypass source gateway) ++ bypass links ++ route(bypass "
+            "destination gateway -> dst), recursively (C24_bypass_composition, _complete); with no bypass declared it is the route of "
+            "C24_composition (C24_bypass_none_declared); latency = sum of link latencies (C24_bypass_latency_sum). Two defects of the "
+            "pinned code are refuted in Coq, reproduced on the real code and repaired: rbegin()/rend() on the way up "
+            "(C24_pinned_refuted) and the local route that completes a bypass inside a Dijkstra zone being put in front of the "
+            "links found before (C24_bypass_pinned_refuted, witness with endpoints at unequal depths). Tie: on generated 2- and "
+            "3-level platforms (about half of them with zone-level bypass routes between zones at any depth of two branches and "
+            "host-level ones; a corpus platform with endpoints at unequal depths) the extracted groute, instantiated with each real "
+            "zone's own get_local_route answers and bypass_routes_ table, must reproduce Host::route_to (links and latency) for all "
+            "host pairs.",
+    "note": "Not modelled: the Vivaldi coordinate term, Wifi/Empty zones, FatTree/Dragonfly leaves, the early exit of "
+            "get_bypass_route on an empty table (no lookup can succeed then). The recursion through bypass gateways is fuelled; "
+            "soundness holds for any fuel and completeness for all large enough fuel; the run uses 2*zones+4. Generated bypass "
+            "gateways lie inside the keyed zones. The latency hypothesis is checked on every local route dumped; cluster zones push "
+            "limiter links without adding their latency (finding limiter-latency-not-counted). Trusted: Coq kernel, extraction, "
+            "routing_drv (private access to get_local_route and bypass_routes_), the Python generator/encoder. Mutants "
+            "(corpus/C24/mutants): m1 up segments reversed, m2 down segments in front, m3 revert of fix 55e64c69b6, m4 bypass links "
+            "before the way up, m5 search skips (0,0), seeded min-instead-of-max loop bound; harmless h1 larger loop bound, h2 "
+            "reordered tests.",
+    "technique": "Coq proof over abstract local routes and bypass tables + extracted-model correspondence instantiated with the zones' own answers",
     "claimed": True,
 }
